@@ -184,6 +184,21 @@ pub fn run(mut run: Run) -> i32 {
                 if !ok {
                     acc.viol(format!("orient({:?}) wrong winding or changed coordinates", dir), idx, || json!({"polygon": format!("{:?}", pg), "oriented": format!("{:?}", o)}));
                 }
+                // the MultiPolygon impl: two members (the polygon and a translated copy with every ring reversed), each oriented like the Polygon impl does
+                let other = {
+                    let sh = |l: &LineString<f64>| LineString::new(l.0.iter().rev().map(|c| Coord { x: c.x + 64.0 * scale, y: c.y }).collect());
+                    Polygon::new(sh(pg.exterior()), pg.interiors().iter().map(sh).collect())
+                };
+                let mp = MultiPolygon(vec![pg.clone(), other.clone()]);
+                let om = mp.orient(dir);
+                acc.evals += 1;
+                let ok_m = om.0.len() == 2
+                    && [(&pg, &om.0[0]), (&other, &om.0[1])].iter().all(|(src, got)| {
+                        ring_ok(src.exterior(), got.exterior(), ext_ccw) && got.interiors().len() == src.interiors().len() && src.interiors().iter().zip(got.interiors()).all(|(a, b)| ring_ok(a, b, !ext_ccw))
+                    });
+                if !ok_m {
+                    acc.viol(format!("MultiPolygon::orient({:?}) wrong winding or changed coordinates", dir), idx, || json!({"multipolygon": format!("{:?}", mp), "oriented": format!("{:?}", om)}));
+                }
             }
         }
     });
@@ -239,8 +254,11 @@ pub fn run(mut run: Run) -> i32 {
                         let r16 = LineString::<i16>::new(vc.iter().map(|p| Coord { x: p.0 as i16 + 20000, y: p.1 as i16 - 20000 }).collect());
                         let r32 = LineString::<i32>::new(vc.iter().map(|p| Coord { x: p.0 as i32 + 100_000_000, y: p.1 as i32 - 100_000_000 }).collect());
                         let r64 = LineString::<i64>::new(vc.iter().map(|p| Coord { x: p.0 + 3_000_000_000, y: p.1 - 3_000_000_000 }).collect());
-                        acc.evals += 3;
-                        for (name, got) in [("i16 at 20000", ww(guard(|| r16.winding_order()))), ("i32 at 1e8", ww(guard(|| r32.winding_order()))), ("i64 at 3e9", ww(guard(|| r64.winding_order())))] {
+                        // beyond 2^53: the coordinates are not representable in f64 any more, the differences still are
+                        let r64b = LineString::<i64>::new(vc.iter().map(|p| Coord { x: p.0 + (1i64 << 60) + 1, y: p.1 - (1i64 << 61) - 3 }).collect());
+                        let r128 = LineString::<i128>::new(vc.iter().map(|p| Coord { x: p.0 as i128 + (1i128 << 100) + 1, y: p.1 as i128 - (1i128 << 90) }).collect());
+                        acc.evals += 5;
+                        for (name, got) in [("i16 at 20000", ww(guard(|| r16.winding_order()))), ("i32 at 1e8", ww(guard(|| r32.winding_order()))), ("i64 at 3e9", ww(guard(|| r64.winding_order()))), ("i64 at 2^60", ww(guard(|| r64b.winding_order()))), ("i128 at 2^100", ww(guard(|| r128.winding_order())))] {
                             if got != exp {
                                 acc.viol(format!("winding_order of an integer ring far from the origin ({}) expected {} got {}", name, exp, got.split(':').next().unwrap()), idx, || json!({"ring": format!("{:?}", l), "type_and_offset": name, "got": got}));
                             }
